@@ -334,6 +334,39 @@ pub fn gen_c14(out: &mut dyn Write, seed: u64, thorough: bool) {
             writeln!(out, "O oracle {} => ok", block_fail.take().unwrap_or("ok".into())).unwrap();
         }
     }
+    // 1b. special scalar values in context: byte order mark / noncharacters / C0, C1 controls / soft hyphen /
+    // the ends of the planes and of the surrogate gap, at the start, in the middle and at the end of Latin-1
+    // and non-Latin-1 text, and as the body of a Macro envelope
+    {
+        let specials: [u32; 22] = [0xFEFF, 0xFFFE, 0xFFFF, 0x0000, 0x0009, 0x000A, 0x001F, 0x007F, 0x0080, 0x009F, 0x00A0, 0x00AD,
+            0x00FF, 0x0100, 0x07FF, 0x0800, 0xD7FF, 0xE000, 0xFFFD, 0x10000, 0x10FFFF, 0x0301];
+        let mut n_special = 0usize;
+        for cp in specials {
+            let c = char::from_u32(cp).unwrap();
+            let mut strs: Vec<String> = vec![];
+            for ctx in ["abc", "äöü", "λμν", "12", ""] {
+                strs.push(format!("{}{}", c, ctx));
+                strs.push(format!("{}{}", ctx, c));
+                let k = ctx.chars().count() / 2;
+                let (a, b): (String, String) = (ctx.chars().take(k).collect(), ctx.chars().skip(k).collect());
+                strs.push(format!("{}{}{}", a, c, b));
+                strs.push(format!("{}{}{}{}", c, ctx, c, c));
+            }
+            for head in ["[)>\x1E05\x1D", "[)>\x1E06\x1D"] {
+                strs.push(format!("{}{}\x1E\x04", head, c));
+                strs.push(format!("{}{}AB\x1E\x04", head, c));
+                strs.push(format!("{}AB{}\x1E\x04", head, c));
+            }
+            for st in strs {
+                match enc(&st) {
+                    Ok(cw) => writeln!(out, "O strchk {} {} => ok", hex(st.as_bytes()), hex(&cw)).unwrap(),
+                    Err(e) => writeln!(out, "O oracle fail:encode_str:{}:{} => ok", e, hex(st.as_bytes())).unwrap(),
+                }
+                n_special += 1;
+            }
+        }
+        writeln!(out, "# special_scalar_strings {}", n_special).unwrap();
+    }
     // 2. random strings over scalar classes, some in macro shape
     let n = if thorough { 200000 } else { 20000 };
     for _ in 0..n {
